@@ -534,28 +534,74 @@ func cliDiffC08(quick bool) []cliDiff {
 	for i := 0; i < len(pool); i += step {
 		ref := pool[i]
 		comps := []string{pool[(i+1)%len(pool)], pool[i], pool[(i+7)%len(pool)]}
-		files := map[string]string{"ref.nw": ref + "\n", "comp.nw": strings.Join(comps, "\n") + "\n"}
-		for _, mode := range []string{"", "--tips", "--binary", "--rf", "--weighted", "--weighted --binary", "--weighted --tips", "--weighted --tips --binary", "--tips --binary", "--tips --rf"} {
-			mode := mode
-			args := append([]string{"compare", "trees", "-i", "@/ref.nw", "-c", "@/comp.nw"}, strings.Fields(mode)...)
-			tips := strings.Contains(mode, "--tips")
-			binary := strings.Contains(mode, "--binary")
-			ds = append(ds, cliDiff{"C08", "compare-trees", args, files, "Compare/CompareWeighted(ref, trees, tips, identical-only, 1) printed as documented", func() (string, bool) {
-				r := gtMustParse(ref)
-				var ts []*tree.Tree
-				for _, s := range comps {
-					ts = append(ts, gtMustParse(s))
-				}
-				var sb strings.Builder
-				if strings.Contains(mode, "--weighted") {
-					st, err := tree.CompareWeighted(r, feed(ts), tips, binary, 1)
+		for _, foreign := range []bool{false, true} {
+			if foreign && i%2 == 0 {
+				// a tree on other taxa in the middle of the file: every output mode must fail as the library call does
+				comps = []string{pool[(i+1)%len(pool)], "((A:1,B:1):1,C:1,(D:1,zz:1):1);", pool[i]}
+			} else if foreign {
+				comps = []string{"(A:1,B:1,(C:1,D:1):1);"}
+			}
+			comps := comps
+			files := map[string]string{"ref.nw": ref + "\n", "comp.nw": strings.Join(comps, "\n") + "\n"}
+			for _, mode := range []string{"", "--tips", "--binary", "--rf", "--weighted", "--weighted --binary", "--weighted --tips", "--weighted --tips --binary", "--tips --binary", "--tips --rf"} {
+				mode := mode
+				args := append([]string{"compare", "trees", "-i", "@/ref.nw", "-c", "@/comp.nw"}, strings.Fields(mode)...)
+				tips := strings.Contains(mode, "--tips")
+				binary := strings.Contains(mode, "--binary")
+				ds = append(ds, cliDiff{"C08", "compare-trees", args, files, "Compare/CompareWeighted(ref, trees, tips, identical-only, 1) printed as documented", func() (string, bool) {
+					r := gtMustParse(ref)
+					var ts []*tree.Tree
+					for _, s := range comps {
+						ts = append(ts, gtMustParse(s))
+					}
+					var sb strings.Builder
+					if strings.Contains(mode, "--weighted") {
+						st, err := tree.CompareWeighted(r, feed(ts), tips, binary, 1)
+						if err != nil {
+							return "", true
+						}
+						if binary {
+							sb.WriteString("tree\tidentical\n")
+						} else {
+							sb.WriteString("tree\tweighted_RF\tKF\n")
+						}
+						for {
+							s, ok := mcrt.Recv2(st)
+							if !ok {
+								break
+							}
+							if s.Err != nil {
+								return "", true
+							}
+							if binary {
+								fmt.Fprintf(&sb, "%d\t%v\n", s.Id, s.Sametree)
+								continue
+							}
+							wrf, kf := 0.0, 0.0
+							for _, d := range s.Common {
+								wrf += math.Abs(d)
+								kf += d * d
+							}
+							for _, cont := range [][]float64{s.Tree1, s.Tree2} {
+								for _, l := range cont {
+									wrf += l
+									kf += l * l
+								}
+							}
+							fmt.Fprintf(&sb, "%d\t%E\t%E\n", s.Id, wrf, math.Sqrt(kf))
+						}
+						return sb.String(), false
+					}
+					st, err := tree.Compare(r, feed(ts), tips, binary, 1)
 					if err != nil {
 						return "", true
 					}
-					if binary {
+					switch {
+					case binary:
 						sb.WriteString("tree\tidentical\n")
-					} else {
-						sb.WriteString("tree\tweighted_RF\tKF\n")
+					case strings.Contains(mode, "--rf"):
+					default:
+						sb.WriteString("tree\treference\tcommon\tcompared\n")
 					}
 					for {
 						s, ok := mcrt.Recv2(st)
@@ -565,55 +611,18 @@ func cliDiffC08(quick bool) []cliDiff {
 						if s.Err != nil {
 							return "", true
 						}
-						if binary {
+						switch {
+						case binary:
 							fmt.Fprintf(&sb, "%d\t%v\n", s.Id, s.Sametree)
-							continue
+						case strings.Contains(mode, "--rf"):
+							fmt.Fprintf(&sb, "%d\n", s.Tree1+s.Tree2)
+						default:
+							fmt.Fprintf(&sb, "%d\t%d\t%d\t%d\n", s.Id, s.Tree1, s.Common, s.Tree2)
 						}
-						wrf, kf := 0.0, 0.0
-						for _, d := range s.Common {
-							wrf += math.Abs(d)
-							kf += d * d
-						}
-						for _, cont := range [][]float64{s.Tree1, s.Tree2} {
-							for _, l := range cont {
-								wrf += l
-								kf += l * l
-							}
-						}
-						fmt.Fprintf(&sb, "%d\t%E\t%E\n", s.Id, wrf, math.Sqrt(kf))
 					}
 					return sb.String(), false
-				}
-				st, err := tree.Compare(r, feed(ts), tips, binary, 1)
-				if err != nil {
-					return "", true
-				}
-				switch {
-				case binary:
-					sb.WriteString("tree\tidentical\n")
-				case strings.Contains(mode, "--rf"):
-				default:
-					sb.WriteString("tree\treference\tcommon\tcompared\n")
-				}
-				for {
-					s, ok := mcrt.Recv2(st)
-					if !ok {
-						break
-					}
-					if s.Err != nil {
-						return "", true
-					}
-					switch {
-					case binary:
-						fmt.Fprintf(&sb, "%d\t%v\n", s.Id, s.Sametree)
-					case strings.Contains(mode, "--rf"):
-						fmt.Fprintf(&sb, "%d\n", s.Tree1+s.Tree2)
-					default:
-						fmt.Fprintf(&sb, "%d\t%d\t%d\t%d\n", s.Id, s.Tree1, s.Common, s.Tree2)
-					}
-				}
-				return sb.String(), false
-			}})
+				}})
+			}
 		}
 	}
 	return ds
